@@ -672,10 +672,13 @@ pub fn boundary_pairs() -> Vec<String> {
     let firsts = [
         "local x = 1", "local x = a1", "local x = a_", "local x = 0x1f", "local x = 1e1", "local x = .5", "local x = 5.", "x = a.b1", "f(a1)", "x = 'a'", "x = {}", "x = a[1]", "local x = ...", "x = 5 .. a", "x = #a", "x = -1", "x = not a", "local x = nil", "x = function() end",
         "local x: number = 1", "x = a :: any", "x += a1", "x = `a{b}`", "return_ = 1", "break_ = 1", "goto_ = 1",
+        // last values that a following `(` would continue (call / index / instantiation / parenthesised ...)
+        "local x = f<<number>>", "x = f<<number, string>>", "x = a.b", "x = f()", "x = (a)", "x = a:m()", "x = f 'a'", "x = f {}", "x += f<<T>>", "repeat until f<<T>>", "local x = -a", "x = not f<<T>>",
     ];
     let seconds = [
         "_f()", "_G.v = 1", "__ = 1", "f()", "local _ = 1", "return", "e1()", "E = 1", "x1 = 1", "do end", "if a then end", "while a do end", "a.b = 1", "a:b()", "repeat until a", "for i = 1, 2 do end", "function f() end", "local function g() end", "and_ = 1", "or_ = 1", "in_ = 1",
         "type T = number", "export type U = string", "continue_ = 1", "x ..= 'a'",
+        "(g)()", "(t).x = 1", "(t)[1] += 1", "(g):m()",
     ];
     let mut v = vec![];
     for a in firsts {
@@ -1016,13 +1019,23 @@ impl C02 {
         // generator must separate the two (`;`), whatever parentheses it added around operands itself
         {
             let h = hash64(expected.as_bytes());
-            let first_kind = h % 4;
+            let first_kind = h % 5;
             let x = || Expr::name("x");
             let (first_dl, first_ref): (dn::Statement, Stmt) = match first_kind {
                 0 => (dn::AssignStatement::from_variable(dn::Variable::new("x"), de2.clone()).into(), Stmt::Assign { targets: vec![x()], values: vec![t.clone()] }),
                 1 => (dn::CompoundAssignStatement::new(dn::CompoundOperator::Plus, dn::Variable::new("x"), de2.clone()).into(), Stmt::CompoundAssign { target: x(), op: BinOp::Add, value: t.clone() }),
                 2 => (dn::LocalAssignStatement::from_variable("x").with_value(de2.clone()).into(), Stmt::Local { names: vec![Binding { name: "x".into(), ty: None, span: Default::default() }], values: vec![t.clone()], is_const: false }),
-                _ => (dn::RepeatStatement::new(dn::Block::default(), de2.clone()).into(), Stmt::Repeat { body: Block { stmts: vec![] }, cond: t.clone() }),
+                3 => (dn::RepeatStatement::new(dn::Block::default(), de2.clone()).into(), Stmt::Repeat { body: Block { stmts: vec![] }, cond: t.clone() }),
+                _ => {
+                    // a `const` declaration with more names than values: the generators complete it with `nil`
+                    // (unless the last value may yield several values)
+                    let st = dn::LocalAssignStatement::from_variable("x").with_variable("y").with_value(de2.clone()).with_assignment_kind(dn::AssignmentKind::Const);
+                    let mut values = vec![t.clone()];
+                    if !t.is_multi() {
+                        values.push(Expr::Nil);
+                    }
+                    (st.into(), Stmt::Local { names: vec![Binding { name: "x".into(), ty: None, span: Default::default() }, Binding { name: "y".into(), ty: None, span: Default::default() }], values, is_const: true })
+                }
             };
             let paren_f = dn::ParentheseExpression::new(dn::Expression::identifier("f"));
             let (second_dl, second_ref): (dn::Statement, Stmt) = match (h / 4) % 3 {
@@ -1038,7 +1051,7 @@ impl C02 {
             };
             let block2 = dn::Block::default().with_statement(first_dl).with_statement(second_dl);
             let expected2 = norm_block(&Block { stmts: vec![first_ref, second_ref] });
-            let luau2 = uses_luau || first_kind == 1 || (h / 4) % 3 == 2;
+            let luau2 = uses_luau || first_kind == 1 || first_kind == 4 || (h / 4) % 3 == 2;
             check_generated(&block2, &expected2, !luau2, &format!("statement ending with {} followed by a statement starting with `(`", label), cov, spans)?;
             cov.hit("statement_pairs_checked");
         }
